@@ -173,6 +173,18 @@ CHECKS["C13"] = dict(
     note="partial: data-race freedom follows from mutual exclusion + std::mutex semantics (trusted); ThreadSanitizer run in the thorough tier "
          "is supporting evidence. Per storage object (copies have their own mutex).",
     technique="Lean 4 proof (decide over AST-generated table + invariant over all schedules) + instrumented multi-thread stress")
+CHECKS["C14"] = dict(
+    text="Lean theorems over an interleaving transition system of the temporary stack list (one transition per stretch of code between "
+         "two scheduling points of the real code: list-head load, each compare-exchange on in_use, push of a new node, in_use=false store, "
+         "thread exit with/without an armed exit detector, initializer construction/destruction): for ANY number of threads, ANY scripts "
+         "and ANY schedule no two live threads hold the same stack; every stack marked in use has a live holder with an armed exit "
+         "detector, so after all threads finished every stack is free for reuse; a thread creates a new stack only after trying every "
+         "stack of its snapshot; the list is destroyed unconditionally at exit. Each of the three repairs (D10, D11, D12) is shown "
+         "necessary by a machine-checked failing schedule. Scope restore = C06's unwind theorem. Tied by stepping real threads through "
+         "the guarded hooks along seeded schedules and comparing every intermediate state with the model; exit scenarios in child processes.",
+    note="partial: sequential consistency assumed (the code uses seq_cst atomics); TLS destructor order across translation units and weak-memory "
+         "effects are runtime behaviour the model cannot exhibit; mode 1 is covered by oracles only.",
+    technique="Lean 4 proof (invariant over all schedules of a transition system) + controlled-scheduler correspondence on real threads")
 NOT_YET = {}
 
 def main():
@@ -198,7 +210,7 @@ def main():
         setup_cmd="python3 tools/setup.py",
         hooks=dict(guard="FOONATHAN_MEMORY_VERIF", enable="checks compile /repo's sources directly with -DFOONATHAN_MEMORY_VERIF=1 (tools/buildlib.py)",
                    baseline_off_cmd="cmake --build /repo/_build -j16 && ctest --test-dir /repo/_build -j8 --timeout 900",
-                   source_commits=[], add_only=True),
+                   source_commits=["2b7ce33"], add_only=True),
         engines=[dict(name="lean-proof+correspondence", path="check.py", serves_properties=sorted(CHECKS),
                       kind_free_text="Lean 4 theorems over hand-written and translator-generated models; C++ harness + Lean driver line-protocol correspondence; property oracles on the real code as failing-input search")],
         checks=checks, not_applicable=na,
